@@ -16,9 +16,9 @@ from .distref import Unsupported
 
 
 class Path:
-    __slots__ = ("env", "pc", "pck", "w", "draws", "stopped", "tag")
+    __slots__ = ("env", "pc", "pck", "w", "draws", "stopped", "tag", "dc")
 
-    def __init__(self, env, pc=None, pck=None, w=None, draws=None, stopped=False, tag=()):
+    def __init__(self, env, pc=None, pck=None, w=None, draws=None, stopped=False, tag=(), dc=None):
         self.env = env
         self.pc = pc or []
         self.pck = pck or []
@@ -26,13 +26,34 @@ class Path:
         self.draws = draws or {}   # name -> (family, [param QPoly])   insertion-ordered
         self.stopped = stopped     # guard found false at some earlier guard evaluation
         self.tag = tag
+        self.dc = dc or {}         # draw name -> (lo, hi): the draw is restricted to the open interval (None = unbounded)
 
     def fork(self):
-        return Path(dict(self.env), list(self.pc), list(self.pck), self.w, dict(self.draws), self.stopped, self.tag)
+        return Path(dict(self.env), list(self.pc), list(self.pck), self.w, dict(self.draws), self.stopped, self.tag, dict(self.dc))
 
     def key(self):
         return (tuple(sorted((k, v.key()) for k, v in self.env.items())), tuple(self.pck),
-                tuple((n, f, tuple(p.key() for p in ps)) for n, (f, ps) in self.draws.items()), self.stopped, self.tag)
+                tuple((n, f, tuple(p.key() for p in ps)) for n, (f, ps) in self.draws.items()), self.stopped, self.tag,
+                tuple(sorted((n, str(lo), str(hi)) for n, (lo, hi) in self.dc.items())))
+
+
+def _is_tree(r):
+    return isinstance(r, tuple)
+
+
+def _draw_affine(d, draws):
+    """d = a*n + b for exactly one draw symbol n and rational constants a != 0, b  ->  (n, a, b)"""
+    n, a, b = None, None, Fraction(0)
+    for k, v in d.t.items():
+        if k == ():
+            b = v
+        elif len(k) == 1 and k[0][1] == 1 and k[0][0] in draws and (n is None or n == k[0][0]):
+            n, a = k[0][0], v
+        else:
+            raise Unsupported("condition depends on a continuous draw (not affine in a single draw with constant coefficients)")
+    if n is None or a == 0:
+        raise Unsupported("condition depends on a continuous draw")
+    return n, a, b
 
 
 class Interp:
@@ -47,6 +68,8 @@ class Interp:
         for a in assume:
             self.solver.add(a)
         self.nsolver = 0
+        ph = self.zv(distref.PHI0)    # 1/sqrt(2 pi), only met in half-normal moments
+        self.solver.add(ph > z3.RealVal("39894/100000"), ph < z3.RealVal("39895/100000"))
         self.ndraw = 0
         self.unset_suffix = unset_suffix
         self.max_paths = max_paths
@@ -89,10 +112,18 @@ class Interp:
             return False
         if k == "not":
             r = self.cond(c[1], env, path)
+            if _is_tree(r):
+                return ("dnot", r)
             return (not r) if isinstance(r, bool) else z3.Not(r)
         if k in ("and", "or"):
             a = self.cond(c[1], env, path)
             b = self.cond(c[2], env, path)
+            if _is_tree(a) or _is_tree(b):
+                if k == "and" and (a is False or b is False):
+                    return False
+                if k == "or" and (a is True or b is True):
+                    return True
+                return ("dand" if k == "and" else "dor", a, b)
             if k == "and":
                 if a is False or b is False:
                     return False
@@ -114,7 +145,12 @@ class Interp:
             v = d.cval()
             return {"==": v == 0, "/=": v != 0, "<": v < 0, "<=": v <= 0, ">": v > 0, ">=": v >= 0}[cop]
         if d.symbols_deep() & set(path.draws):
-            raise Unsupported("condition depends on a continuous draw")
+            # a threshold on one continuous draw: decided by splitting the draw's range (see decide)
+            n, a, b = _draw_affine(d, path.draws)
+            t = -b / a
+            if a < 0:
+                cop = {"<": ">", "<=": ">=", ">": "<", ">=": "<=", "==": "==", "/=": "/="}[cop]
+            return ("draw", n, cop, t)
         side = []
         t = d.to_z3(self.zv, side)
         for s in side:
@@ -126,6 +162,8 @@ class Interp:
         """-> list of (bool, path) for the feasible sides"""
         if isinstance(r, bool):
             return [(r, path)]
+        if _is_tree(r):
+            return self.decide_draws(path, r)
         r = z3.simplify(r)
         if z3.is_true(r):
             return [(True, path)]
@@ -147,6 +185,85 @@ class Interp:
                 p2.pc.append(c)
                 p2.pck.append(c.sexpr())
                 out.append((v, p2))
+        return out
+
+    def decide_draws(self, path, tree):
+        """a condition over thresholds of continuous draws: the range of every draw involved is cut at the thresholds;
+        on each cell the draw atoms are constant, what is left is decided as usual"""
+        import itertools
+        atoms = []
+
+        def collect(t):
+            if _is_tree(t):
+                if t[0] == "draw":
+                    atoms.append(t)
+                else:
+                    for x in t[1:]:
+                        collect(x)
+        collect(tree)
+        cells = {}
+        for n in sorted({a[1] for a in atoms}):
+            lo, hi = path.dc.get(n, (None, None))
+            cuts = sorted({a[3] for a in atoms if a[1] == n and a[2] not in ("==", "/=")
+                           and (lo is None or a[3] > lo) and (hi is None or a[3] < hi)})
+            bounds = [lo] + cuts + [hi]
+            cells[n] = list(zip(bounds, bounds[1:]))
+
+        def rep(lo, hi):
+            if lo is None and hi is None:
+                return Fraction(0)
+            if lo is None:
+                return hi - 1
+            if hi is None:
+                return lo + 1
+            return (lo + hi) / 2
+
+        def ev(t, point):
+            if not _is_tree(t):
+                return t
+            if t[0] == "draw":
+                x, th = point[t[1]], t[3]
+                return {"==": False, "/=": True, "<": x < th, "<=": x < th, ">": x > th, ">=": x > th}[t[2]]
+            if t[0] == "dnot":
+                r = ev(t[1], point)
+                return (not r) if isinstance(r, bool) else z3.Not(r)
+            a, b = ev(t[1], point), ev(t[2], point)
+            if t[0] == "dand":
+                if a is False or b is False:
+                    return False
+                if a is True:
+                    return b
+                if b is True:
+                    return a
+                return z3.And(a, b)
+            if a is True or b is True:
+                return True
+            if a is False:
+                return b
+            if b is False:
+                return a
+            return z3.Or(a, b)
+        names = sorted(cells)
+        combos = []
+        for combo in itertools.product(*[cells[n] for n in names]):
+            r = ev(tree, {n: rep(*c) for n, c in zip(names, combo)})
+            combos.append([combo, r])
+        if len(names) == 1:
+            # neighbouring cells with the same (boolean) outcome are one cell
+            merged = []
+            for combo, r in combos:
+                if merged and isinstance(r, bool) and isinstance(merged[-1][1], bool) and merged[-1][1] == r:
+                    merged[-1][0] = ((merged[-1][0][0][0], combo[0][1]),)
+                else:
+                    merged.append([combo, r])
+            combos = merged
+        out = []
+        for combo, r in combos:
+            p2 = path.fork() if len(combos) > 1 else path
+            for n, c in zip(names, combo):
+                if c != (None, None):
+                    p2.dc[n] = c
+            out += self.decide(p2, r)
         return out
 
     # ---- execution
@@ -286,16 +403,36 @@ class Interp:
         # canonical renaming so that equal states merge: rename live draws by order
         keep = [n for n in p.draws if n in live]
         if len(keep) != len(p.draws) or any(n != f"@c{i}" for i, n in enumerate(keep)):
+            # a dead draw restricted to a cell leaves the probability of the cell behind
+            for n in list(p.draws):
+                if n not in live and n in p.dc:
+                    lo, hi = p.dc.pop(n)
+                    fam, params = p.draws[n]
+                    p.w = p.w * distref.trunc_moment(fam, params, 0, lo, hi)
             ren = {n: QPoly.var(f"@c{i}") for i, n in enumerate(keep)}
             p.env = {k: v.subs_deep(ren) for k, v in p.env.items()}
             p.w = p.w.subs_deep(ren)
             p.draws = {f"@c{i}": (p.draws[n][0], [q.subs_deep(ren) for q in p.draws[n][1]]) for i, n in enumerate(keep)}
+            p.dc = {f"@c{keep.index(n)}": c for n, c in p.dc.items() if n in keep}
 
     # ---- expectations
-    def integrate(self, q, draws):
-        """E over the continuous draws, innermost (latest) first, repeated until none is left"""
+    def integrate(self, q, draws, dc=None):
+        """E over the continuous draws, innermost (latest) first, repeated until none is left; a draw restricted to
+        a cell (dc) contributes E[x^k 1(cell)]"""
         names = list(draws)
         for n in reversed(names):
+            if dc and n in dc:
+                if n in (q.symbols_deep() - q.symbols()):
+                    raise Unsupported("draw inside a non-polynomial atom")
+                fam, params = draws[n]
+                lo, hi = dc[n]
+                r = QPoly()
+                for k, v in q.t.items():
+                    e = sum(pw for sy, pw in k if sy == n)
+                    outside = tuple((sy, pw) for sy, pw in k if sy != n)
+                    r = r + QPoly({outside: v}) * distref.trunc_moment(fam, params, e, lo, hi)
+                q = r
+                continue
             if n not in q.symbols():
                 if n in q.symbols_deep():
                     raise Unsupported("draw inside a non-polynomial atom")
@@ -312,7 +449,7 @@ class Interp:
         for p in paths:
             if only is not None and not only(p):
                 continue
-            val = self.integrate(f(p) * p.w, p.draws)
+            val = self.integrate(f(p) * p.w, p.draws, p.dc)
             k = tuple(p.pck)
             if k in groups:
                 groups[k][1] = groups[k][1] + val
